@@ -3,9 +3,17 @@
    ends, for every segmentation) is C07 / C06; here: the framing decision and the grammar of the head. *)
 From Coq Require Import List NArith ZArith Bool.
 From GV Require Import Base.Bytes Base.Scan Base.PyStr Gen.GenParser Model.Parser Spec.Rfc9112
-     Proof.Framing Proof.HeadGrammar Proof.ChunkedDecode Proof.ChunkedGrammar Proof.ParserRun Proof.ChunkedReader Proof.BodyFileThm.
+     Proof.Framing Proof.HeadGrammar Proof.HeadSound Proof.ParserHead Proof.ChunkedDecode Proof.ChunkedGrammar Proof.ParserRun Proof.ChunkedReader Proof.BodyFileThm.
 Import ListNotations.
 Local Open Scope N_scope.
+
+(* (a) at stream level, for every segmentation: an accepted request head is a strict RFC 9112 head of the
+   stream - request line up to the first CRLF, strictly well-formed field lines up to the first empty
+   line, framing as the declarative rules say - and the body starts exactly behind the empty line. *)
+Theorem C01_accepted_head_is_strict : forall c x n p r p',
+    NE p -> safe_cfg c -> parse_request c x n p = inl (r, p') -> strict_head c (u_abs p) r (u_abs p').
+Proof. exact accepted_head_is_strict_any_segmentation. Qed.
+Print Assumptions C01_accepted_head_is_strict.
 
 (* (a) whatever Message.set_body_reader accepts is framed exactly as RFC 9112 section 6 frames it *)
 Theorem C01_framing_sound : forall hs ver f mc,
